@@ -64,6 +64,10 @@ def run(ctx):
     # fixed witnesses: rule violations in the places a single-point mutation of the base program does not reach
     W = [("missing-return", "conditional without else in last position",
           "fn f(a: int) -> int {\n    if (> a 0) {\n        return 1\n    }\n}\nshadow f {\n    assert (== (f 1) 1)\n}\nfn main() -> int {\n    (println (f 0))\n    return 0\n}\nshadow main {\n    assert (== 1 1)\n}\n"),
+         ("missing-return", "while loop in last position",
+          "fn f(a: int) -> int {\n    let mut i: int = 0\n    while (< i a) {\n        set i (+ i 1)\n    }\n}\nshadow f {\n    assert true\n}\nfn main() -> int {\n    (println (f 3))\n    return 0\n}\nshadow main {\n    assert (== 1 1)\n}\n"),
+         ("missing-return", "for loop in last position, returns only inside it",
+          "fn f(a: int) -> int {\n    for k in (range 0 a) {\n        if (> k 1) {\n            return k\n        }\n    }\n}\nshadow f {\n    assert true\n}\nfn main() -> int {\n    (println (f 1))\n    return 0\n}\nshadow main {\n    assert (== 1 1)\n}\n"),
          ("immutable", "set inside a block arm of a match used as an expression",
           "union R {\n    Ok { value: int },\n    Err { error: string }\n}\nfn main() -> int {\n    let r: R = R.Ok { value: 42 }\n    let k: int = 5\n    let y: int = match r {\n        Ok(v) => {\n            set k 9\n            return v.value\n        }\n"
           "        Err(e) => {\n            return 0\n        }\n    }\n    (println y)\n    (println k)\n    return 0\n}\nshadow main {\n    assert (== 1 1)\n}\n"),
@@ -87,6 +91,29 @@ def run(ctx):
         W.append((rule, "top-level constant initialiser %s" % init,
                   "let limit: int = 10\nlet strict: bool = %s\nfn clamp(n: int) -> int {\n    if (> n limit) {\n        return limit\n    }\n    return n\n}\nshadow clamp { assert (== (clamp 50) 10) }\n" % init
                   + MAINT % "    if strict {\n        (println \"strict\")\n    } else {\n        (println \"lax\")\n    }\n"))
+    # consumed resources: the first consumption sits in every control-flow position, the second use follows it
+    RES = ("resource struct FileHandle {\n    fd: int\n}\nfn open_file(fd: int) -> FileHandle {\n    return FileHandle { fd: fd }\n}\nshadow open_file { assert true }\n"
+           "fn close_file(f: FileHandle) -> void {\n    (println \"File closed\")\n}\nshadow close_file { assert true }\n"
+           "fn peek(f: FileHandle) -> int {\n    return 1\n}\nshadow peek { assert true }\n")
+    FIRST = [("straight line", "    (close_file f)\n"),
+             ("then-branch", "    if (> limit 2) {\n        (close_file f)\n    }\n"),
+             ("else-branch", "    if (> limit 2) {\n        (println 1)\n    } else {\n        (close_file f)\n    }\n"),
+             ("both branches", "    if (> limit 2) {\n        (close_file f)\n    } else {\n        (close_file f)\n    }\n    (println 0)\n"),
+             ("loop body", "    while (< i limit) {\n        (close_file f)\n        set i (+ i limit)\n    }\n"),
+             ("branch ending in break", "    while (< i limit) {\n        if (== i 2) {\n            (close_file f)\n            break\n        }\n        set i (+ i 1)\n    }\n"),
+             ("branch ending in continue", "    while (< i limit) {\n        set i (+ i 1)\n        if (== i 2) {\n            (close_file f)\n            continue\n        }\n    }\n"),
+             ("else-branch ending in break", "    while (< i limit) {\n        if (< i 2) {\n            set i (+ i 1)\n        } else {\n            (close_file f)\n            break\n        }\n    }\n"),
+             ("for body with break", "    for k in (range 0 limit) {\n        if (== k 1) {\n            (close_file f)\n            break\n        }\n    }\n"),
+             ("nested block", "    {\n        (close_file f)\n    }\n"),
+             ("nested conditionals", "    if (> limit 1) {\n        if (> limit 2) {\n            (close_file f)\n        }\n    }\n")]
+    FIRST.append(("straight line, then a block that shadows the name", "    (close_file f)\n    if (> limit 0) {\n        let f: int = 3\n        (println f)\n    }\n"))
+    SECOND = [("consumed again", "    (close_file f)\n"), ("passed on", "    (println (peek f))\n"),
+              ("consumed again in a branch", "    if (> limit 0) {\n        (close_file f)\n    }\n")]
+    for fw, ftxt in FIRST:
+        for sw, stxt in SECOND:
+            W.append(("consumed-resource", "first consumption in %s, then %s" % (fw, sw),
+                      RES + "fn scan(limit: int) -> int {\n    let f: FileHandle = (open_file 3)\n    let mut i: int = 0\n" + ftxt + stxt
+                      + "    return i\n}\nshadow scan { assert true }\n" + MAINT % "    (println (scan 5))\n"))
     for rule, what, text in W:
         cases.append(("witness", rule, what, text))
     try:
